@@ -61,6 +61,20 @@ def chunksExact (k : Nat) (l : List α) : List (List α) := chunksFrom k (l.leng
 def zipChunksMut (k : Nat) (l : List α) (ys : List β) (f : List α → β → List α) : List α :=
   (zipMut (chunksExact k l) ys f).flatten ++ l.drop (k * (l.length / k))
 
+/-- `n` passes of `c := f c s` over consecutive chunks of `k` elements of `l` (state `s` threaded through): the new contents of
+    `l` (the updated chunks, then what the `n` chunks did not cover, unchanged) and the final state -/
+def chunksMutFrom (k : Nat) (f : List α → σ → List α × σ) : Nat → List α → σ → List α × σ
+  | 0, l, s => (l, s)
+  | n+1, l, s =>
+    let r1 := f (l.take k) s
+    let r2 := chunksMutFrom k f n (l.drop k) r1.2
+    (r1.1 ++ r2.1, r2.2)
+
+/-- `for c in l.chunks_exact_mut(k) { (c, s) = f c s }`: the `l.len() / k` full chunks of `k` elements are visited in order, the
+    remainder of fewer than `k` elements is left alone (Rust panics when `k = 0`; totalised: no chunk, since `x / 0 = 0`) -/
+def forChunksMut (k : Nat) (l : List α) (f : List α → σ → List α × σ) (s : σ) : List α × σ :=
+  chunksMutFrom k f (l.length / k) l s
+
 /-- `dst.copy_from_slice(src)`: the new contents of `dst` (Rust panics unless the lengths are equal, and then
     the result is `src`; totalised so that the length of `dst` never changes) -/
 def copyFromSlice (dst src : List α) : List α := src.take dst.length ++ dst.drop src.length
@@ -76,6 +90,11 @@ def u32ToLeBytes (w : UInt32) : List UInt8 := u32le w
 @[simp] theorem loopFrom_zero (step : Nat) (f : Nat → σ → σ) (i : Nat) (s : σ) : loopFrom step f 0 i s = s := rfl
 @[simp] theorem loopFrom_succ (step : Nat) (f : Nat → σ → σ) (n i : Nat) (s : σ) :
     loopFrom step f (n + 1) i s = loopFrom step f n (i + step) (f i s) := rfl
+@[simp] theorem chunksMutFrom_zero (k : Nat) (f : List α → σ → List α × σ) (l : List α) (s : σ) : chunksMutFrom k f 0 l s = (l, s) := rfl
+@[simp] theorem chunksMutFrom_succ (k : Nat) (f : List α → σ → List α × σ) (n : Nat) (l : List α) (s : σ) :
+    chunksMutFrom k f (n + 1) l s =
+      ((f (l.take k) s).1 ++ (chunksMutFrom k f n (l.drop k) (f (l.take k) s).2).1,
+       (chunksMutFrom k f n (l.drop k) (f (l.take k) s).2).2) := rfl
 @[simp] theorem forIn_nil (f : α → σ → σ) (s : σ) : forIn [] f s = s := rfl
 @[simp] theorem forIn_cons (a : α) (as : List α) (f : α → σ → σ) (s : σ) : forIn (a :: as) f s = forIn as f (f a s) := rfl
 @[simp] theorem enumFrom_nil (i : Nat) (f : Nat → α → σ → σ) (s : σ) : enumFrom i [] f s = s := rfl
